@@ -280,6 +280,9 @@ def run_check(check_id, tier, seed, list_signatures=False, jobs=None, budget=Non
                 results.append(r)
     results.sort(key=lambda r: r["index"])
 
+    if os.environ.get("VERIF_TIMES"):
+        for r in sorted(results, key=lambda r: -r.get("wall", 0))[:8]:
+            print(f"  unit {r['index']:4d} {r.get('wall', 0):7.1f}s  {json.dumps(units[r['index']], default=repr)[:160]}")
     errors = [r for r in results if "harness_error" in r]
     if errors:
         for r in errors[:3]:
